@@ -3,7 +3,9 @@ package main
 import (
 	"fmt"
 	"go/token"
+	"os"
 	"sort"
+	"time"
 
 	"golang.org/x/tools/go/ssa"
 )
@@ -271,7 +273,13 @@ func (x *X) unreachable(cond string) bool {
 	if cond == "false" {
 		return true
 	}
-	q := instVariant(x.sc.Text()) + x.strLitDecls() + "(assert " + cond + ")\n"
-	r := SolveWith("prune", q, 3, []string{"z3-new-5.1.0"})
+	// asked on the quantifier-free weakening (fewer assumptions: an unsat answer still proves the
+	// path infeasible) so that a feasible path gets its "sat" quickly instead of a time-out
+	q := qfVariant(instVariant(x.sc.Text())) + x.strLitDecls() + "(assert " + cond + ")\n"
+	t0 := time.Now()
+	r := SolveWith("prune", q, 2, []string{"z3-new-5.1.0"})
+	if os.Getenv("GOVC_DEBUG") != "" {
+		fmt.Fprintf(os.Stderr, "prune query: %s in %.2fs (%d lines)\n", r, time.Since(t0).Seconds(), len(x.sc.lines))
+	}
 	return r == "unsat"
 }
